@@ -1,0 +1,93 @@
+//! Read-only re-exports of crate-private verifier items for the external verification harness
+//! (cargo feature `verif_hooks`, off by default).
+#[cfg(not(feature = "std"))]
+use alloc::vec::Vec;
+
+use anyhow::Result;
+
+use crate::field::extension::Extendable;
+use crate::gates::selectors::SelectorsInfo;
+use crate::hash::hash_types::RichField;
+use crate::plonk::circuit_data::{CommonCircuitData, VerifierOnlyCircuitData};
+use crate::plonk::config::{GenericConfig, Hasher};
+use crate::plonk::proof::{Proof, ProofChallenges, ProofWithPublicInputs};
+use crate::plonk::vars::EvaluationVars;
+
+/// `(selector_indices, groups as (start, end))` of a `SelectorsInfo`.
+pub fn selectors_info_parts(s: &SelectorsInfo) -> (Vec<usize>, Vec<(usize, usize)>) {
+    (
+        s.selector_indices.clone(),
+        s.groups.iter().map(|r| (r.start, r.end)).collect(),
+    )
+}
+
+/// `plonk::validate_shape::validate_proof_with_pis_shape`
+pub fn validate_proof_with_pis_shape<F, C, const D: usize>(
+    proof_with_pis: &ProofWithPublicInputs<F, C, D>,
+    common_data: &CommonCircuitData<F, D>,
+) -> Result<()>
+where
+    F: RichField + Extendable<D>,
+    C: GenericConfig<D, F = F>,
+{
+    crate::plonk::validate_shape::validate_proof_with_pis_shape(proof_with_pis, common_data)
+}
+
+/// `plonk::verifier::verify_with_challenges`
+pub fn verify_with_challenges<F: RichField + Extendable<D>, C: GenericConfig<D, F = F>, const D: usize>(
+    proof: Proof<F, C, D>,
+    public_inputs_hash: <<C as GenericConfig<D>>::InnerHasher as Hasher<F>>::Hash,
+    challenges: ProofChallenges<F, D>,
+    verifier_data: &VerifierOnlyCircuitData<C, D>,
+    common_data: &CommonCircuitData<F, D>,
+) -> Result<()> {
+    crate::plonk::verifier::verify_with_challenges::<F, C, D>(
+        proof,
+        public_inputs_hash,
+        challenges,
+        verifier_data,
+        common_data,
+    )
+}
+
+/// `plonk::vanishing_poly::eval_vanishing_poly`
+#[allow(clippy::too_many_arguments)]
+pub fn eval_vanishing_poly<F: RichField + Extendable<D>, const D: usize>(
+    common_data: &CommonCircuitData<F, D>,
+    x: F::Extension,
+    vars: EvaluationVars<F, D>,
+    local_zs: &[F::Extension],
+    next_zs: &[F::Extension],
+    local_lookup_zs: &[F::Extension],
+    next_lookup_zs: &[F::Extension],
+    partial_products: &[F::Extension],
+    s_sigmas: &[F::Extension],
+    betas: &[F],
+    gammas: &[F],
+    alphas: &[F],
+    deltas: &[F],
+) -> Vec<F::Extension> {
+    crate::plonk::vanishing_poly::eval_vanishing_poly::<F, D>(
+        common_data,
+        x,
+        vars,
+        local_zs,
+        next_zs,
+        local_lookup_zs,
+        next_lookup_zs,
+        partial_products,
+        s_sigmas,
+        betas,
+        gammas,
+        alphas,
+        deltas,
+    )
+}
+
+/// `plonk::vanishing_poly::evaluate_gate_constraints`
+pub fn evaluate_gate_constraints<F: RichField + Extendable<D>, const D: usize>(
+    common_data: &CommonCircuitData<F, D>,
+    vars: EvaluationVars<F, D>,
+) -> Vec<F::Extension> {
+    crate::plonk::vanishing_poly::evaluate_gate_constraints::<F, D>(common_data, vars)
+}
